@@ -72,7 +72,7 @@ UNIT = {
     'no_translate': ['set_difference', 'sort', 'getStaleFileList', 'getDelegate', 'getBuildSystem', 'getFileSystem', 'pathIsPrefixedByPath', 'isStaleFileRemoval', 'makeStaleFileRemoval', 'strerror'],
     'need_fields': {'StaleFileRemovalCommand': ['expectedOutputs', 'filesToDelete', 'roots', 'hasPriorResult', 'priorValue', 'computedFilesToDelete']},
     'calls': {
-        'range:@vec_pstr': ('vec_pstr_size', 'vec_pstr_at'), 'm:@vec_pstr::size': 'vec_pstr_size', 'm:@vec_pstr::empty': 'vec_pstr_empty',
+        'range:@vec_pstr': ('vec_pstr_size', 'vec_pstr_at'), 'm:@vec_pstr::clear': 'vec_pstr_clear', 'm:@vec_pstr::size': 'vec_pstr_size', 'm:@vec_pstr::empty': 'vec_pstr_empty',
         'o:[]:@pstr': 'stale_first_char($o)', 'm:@pstr::find': ('stale_sep_find', 'v'), 'fn:pathIsPrefixedByPath': ('stale_prefixed', 'vv'),
         'm:BuildSystem::getDelegate': 'stale_delegate', 'fn:getBuildSystem': '((void *)0)', 'm:*::getFileSystem': '((void *)0)',
         'm:BuildSystemDelegate::commandStarted': 'stale_started', 'm:BuildSystemDelegate::commandFinished': 'stale_finished',
@@ -89,6 +89,13 @@ UNIT = {
     'after_structs': '#include "models/stale_after.h"\n',
     'stubs': {},
     'functions': {
+        'StaleFileRemovalCommand::start': {
+            'requires': ['__CPROVER_is_fresh(self, sizeof(*self))'],
+            'assigns': ['self->computedFilesToDelete', 'self->filesToDelete.len', 'self->hasPriorResult'],
+            # the command object outlives a build when the build system instance is reused: what is stale is decided anew in every build,
+            # from the prior value provided in THAT build (a list computed in an earlier build names files that are no longer stale)
+            'ensures': [('P:C14', '!self->computedFilesToDelete && self->filesToDelete.len == 0 && !self->hasPriorResult')],
+        },
         'StaleFileRemovalCommand::computeFilesToDelete': {
             'requires': ['__CPROVER_is_fresh(self, sizeof(*self))', 'g_diffs == 0'],
             'assigns': ['self->computedFilesToDelete', 'g_diffs', 'g_diff_a', 'g_diff_b', 'g_diff_out'],
